@@ -301,6 +301,7 @@ func runRoundtripMode() {
 		sb.WriteString("|END")
 		emit(fmt.Sprintf("sd decode %s %s %s", schemaID, root.name, hx(eq)), sb.String())
 		emitReencode(root.name, hx(eq))
+		emitAPI(h, res, ps)
 		outBytes += 2*len(eq) + sb.Len() // (the se reencode line repeats the stream; the budget is left as it was so that the generated cases do not shift)
 		refs := dictRefs(root, res.truths)
 		stats["dict-refs"] += refs
